@@ -5,7 +5,10 @@
    (`glatest`) and which snapshots were acknowledged to callers (`gacked`); every file also carries the
    ghost flag `fcom` (its commit point succeeded).
 
-   Operations (local backend: no conditional writes, a failed write is not visible):
+   Operations.  The version of a new file is numbered from _current_version_info() on both kinds of backend
+   (plain pointer writes; conditional pointer writes, where since fix a9fa40b the parsed pointer is used only
+   when its target exists -- which is what _current_version_info() returns in that case).  A precondition
+   failure of a conditional pointer write is a FailCommitPoint like a failed fence or a failed local write:
      ECreate   Table(path, create_if_not_exists=True) / create_table          transaction.py:755-783,
                -> refresh() is None ? initialize_table : nothing              metadata_manager.py:67-118
      ECommit   Transaction.commit -> MetadataManager.commit                   transaction.py:346-448,
